@@ -47,6 +47,7 @@ Definition sep_value (v : str) : Prop :=
 
 Definition takes_none (c : cfg) (i : nat) : Prop := a_vmode (argdef_of c i) = VMNone.
 Definition takes_required (c : cfg) (i : nat) : Prop := a_vmode (argdef_of c i) = VMRequired.
+Definition takes_optional (c : cfg) (i : nat) : Prop := a_vmode (argdef_of c i) = VMOptional.
 
 (** flags grouped behind one dash: list of (argument index, key character) *)
 Definition flags_ok (c : cfg) (fs : list (nat * N)) : Prop :=
